@@ -161,6 +161,89 @@ theorem include_denotation_mk (P : Prims) (O : OutPrims) (cfg : Cfg) (fs : FS) (
   include_denotation (mkCtx P O cfg fs (fuel + 1)) fs (incFuel P O cfg fs fuel) rfl line args s e rel src root out
     he hv hsrc hc hr
 
+/-! ### Errors through `include`: where they are located
+
+`ctx.RenderFile` returns plain errors for a file it cannot read (`os.ReadFile`'s error) and `parser.Error`s for
+what goes wrong in the file (compiled with the include tag's `SourceLoc`: the INCLUDER's path, lines counted from
+the tag's line). `TagNode.render` wraps what the tag returns with `WrapError(err, node)`: a plain error becomes a
+`parser.Error` at the include tag with that error as cause; a `parser.Error` that has a line or a path is returned
+as it is. (Render-time errors inside the file and the first failing construct there: Proofs/C14Errors.lean.) -/
+
+/-- **C14 (a handler failure is located at the include tag).** When the handler fails with an error that is
+    not a `parser.Error` — whatever the handler is — the include node fails with the error located at the
+    include tag of the including template (its line, the template's path), the handler's error as cause. -/
+theorem include_plain_err_located (c : RCtx) (line : Nat) (args : Bytes) (s : RS) (e : Expr) (rel : Bytes) (cause : Cause)
+    (he : parseExprSource args = .ok e) (hv : evaluate c.P s.env e = .ok (.str rel))
+    (hf : c.inc line (joinPath (dirPath c.cfg.path) rel) s.env = .fail (.plain cause)) :
+    renderNode c (.incl line args) s = .fail (.located ⟨line, true, cause, .byCause⟩) := by
+  rw [include_resolves c line args s e rel he hv]
+  simp only [wrapAt, hf, Prog.bind, Prog.mapFail, wrapError]
+
+/-- **C14 (missing file).** `{% include e %}` where `e` evaluates to a string naming a file that is neither on
+    disk nor in the cache: the render fails with an error at the include tag (line of the tag, path of the
+    including template) whose cause is the not-exist error. For every include depth `fuel + 1`. -/
+theorem include_missing_located (P : Prims) (O : OutPrims) (cfg : Cfg) (fs : FS) (fuel : Nat) (line : Nat) (args : Bytes) (s : RS)
+    (e : Expr) (rel : Bytes) (he : parseExprSource args = .ok e) (hv : evaluate P s.env e = .ok (.str rel))
+    (h : fs.read (joinPath (dirPath cfg.path) rel) = .notExist) (hc : fs.cache (joinPath (dirPath cfg.path) rel) = none) :
+    renderNode (mkCtx P O cfg fs (fuel + 1)) (.incl line args) s = .fail (.located ⟨line, true, .other "notExist", .byCause⟩) :=
+  include_plain_err_located (mkCtx P O cfg fs (fuel + 1)) line args s e rel _ he hv
+    (include_missing_err P O cfg fs (incFuel P O cfg fs fuel) line _ s.env h hc)
+
+/-- a read error other than not-exist (the name is a directory, no permission): the same, with the read error
+    as cause -/
+theorem include_read_err_located (P : Prims) (O : OutPrims) (cfg : Cfg) (fs : FS) (fuel : Nat) (line : Nat) (args : Bytes) (s : RS)
+    (e : Expr) (rel : Bytes) (he : parseExprSource args = .ok e) (hv : evaluate P s.env e = .ok (.str rel))
+    (h : fs.read (joinPath (dirPath cfg.path) rel) = .otherError) :
+    renderNode (mkCtx P O cfg fs (fuel + 1)) (.incl line args) s = .fail (.located ⟨line, true, .io, .byCause⟩) :=
+  include_plain_err_located (mkCtx P O cfg fs (fuel + 1)) line args s e rel _ he hv (by simp only [mkCtx, incFuel, renderFileWith, h])
+
+/-- **C14 (an error from inside the file keeps its own location).** When the handler fails with a located error
+    `e'`, the include node fails with `WrapError(e', tag)`: `e'` itself whenever `e'` has a line or names a path
+    (`wrap_keeps_located`: always, except on line 0 of a template parsed without a path). -/
+theorem include_located_err_passes (c : RCtx) (line : Nat) (args : Bytes) (s : RS) (e : Expr) (rel : Bytes) (e' : SErr)
+    (he : parseExprSource args = .ok e) (hv : evaluate c.P s.env e = .ok (.str rel))
+    (hf : c.inc line (joinPath (dirPath c.cfg.path) rel) s.env = .fail (.located e')) :
+    renderNode c (.incl line args) s = .fail (.located (wrapError c.cfg.path (.located e') ⟨line, true⟩)) ∧
+    ((e'.line ≠ 0 ∨ (e'.pathSet = true ∧ c.cfg.path ≠ [])) → renderNode c (.incl line args) s = .fail (.located e')) := by
+  have h1 : renderNode c (.incl line args) s = .fail (.located (wrapError c.cfg.path (.located e') ⟨line, true⟩)) := by
+    rw [include_resolves c line args s e rel he hv]
+    simp only [wrapAt, hf, Prog.bind, Prog.mapFail]
+  refine ⟨h1, fun h => ?_⟩
+  rw [h1]
+  unfold wrapError
+  rcases h with h | ⟨h2, h3⟩
+  · simp [h]
+  · have : c.cfg.path.isEmpty = false := by cases hp : c.cfg.path <;> simp_all
+    simp [h2, this]
+
+/-- **C14 (parse error in the included file).** The file is found (on disk, or in the cache when no such file
+    exists) and does not compile — compiled at the include tag's line with the includer's path, so `e'` counts
+    its lines from the tag's line and names the includer's path: the render fails with `WrapError(e', tag)`,
+    which is `e'` itself when `e'` has a line or a path. For every include depth. -/
+theorem include_compile_err_located (P : Prims) (O : OutPrims) (cfg : Cfg) (fs : FS) (fuel : Nat) (line : Nat) (args : Bytes)
+    (s : RS) (e : Expr) (rel src : Bytes) (e' : SErr)
+    (he : parseExprSource args = .ok e) (hv : evaluate P s.env e = .ok (.str rel))
+    (hsrc : fileSource fs (joinPath (dirPath cfg.path) rel) = some src)
+    (hc : compileSource cfg.delims src line = .err e') :
+    renderNode (mkCtx P O cfg fs (fuel + 1)) (.incl line args) s =
+      .fail (.located (wrapError cfg.path (.located e') ⟨line, true⟩)) ∧
+    ((e'.line ≠ 0 ∨ (e'.pathSet = true ∧ cfg.path ≠ [])) →
+      renderNode (mkCtx P O cfg fs (fuel + 1)) (.incl line args) s = .fail (.located e')) := by
+  have hf : (mkCtx P O cfg fs (fuel + 1)).inc line (joinPath (dirPath cfg.path) rel) s.env = .fail (.located e') := by
+    show renderFileWith P O cfg fs (incFuel P O cfg fs fuel) line _ s.env = _
+    unfold fileSource at hsrc
+    unfold renderFileWith
+    cases hrd : fs.read (joinPath (dirPath cfg.path) rel) with
+    | content b =>
+      simp only [hrd, Option.some.injEq] at hsrc
+      subst hsrc
+      simp only [hc]
+    | notExist =>
+      simp only [hrd] at hsrc
+      simp only [hsrc, hc]
+    | otherError => simp [hrd] at hsrc
+  exact include_located_err_passes (mkCtx P O cfg fs (fuel + 1)) line args s e rel e' he hv hf
+
 /-! Non-vacuity: path resolution on concrete paths -/
 -- joinPath (dirPath "dir/t.liquid") "inc/a.html" = "dir/inc/a.html"
 example : joinPath (dirPath [100, 105, 114, 47, 116, 46, 108, 105, 113, 117, 105, 100]) [105, 110, 99, 47, 97, 46, 104, 116, 109, 108] = [100, 105, 114, 47, 105, 110, 99, 47, 97, 46, 104, 116, 109, 108] := by decide
@@ -180,3 +263,24 @@ example (P : Prims) (O : OutPrims) :
     (.lit (.str [102])) [102] [104, 105] [.text 1 [104, 105]] [104, 105] rfl rfl rfl rfl
     (by simp [renderRoot, renderList, renderNode, wrapFailAt, M.mapFail, M.bind, M.pure, writeM, flushM, Prog.bind,
       Prog.mapFail, Prog.runPure, bind, pure])
+
+/-! Non-vacuity of the error theorems: `{% include "f" %}` at line 4 of `dir/t`, no file anywhere -/
+example (P : Prims) (O : OutPrims) :
+    renderNode (mkCtx P O { path := [100, 47, 116] } ⟨fun _ => .notExist, fun _ => none⟩ 1) (.incl 4 [34, 102, 34]) ⟨[], {}⟩ =
+      .fail (.located ⟨4, true, .other "notExist", .byCause⟩) :=
+  include_missing_located P O { path := [100, 47, 116] } ⟨fun _ => .notExist, fun _ => none⟩ 0 4 [34, 102, 34] ⟨[], {}⟩
+    (.lit (.str [102])) [102] rfl rfl rfl rfl
+/-- a file `⏎{{ 1 | }}` included at line 4: the syntax error is reported at line 5 (the tag's line plus the
+    newline before the object), with the includer's path -/
+example (P : Prims) (O : OutPrims) :
+    renderNode (mkCtx P O { path := [100, 47, 116] } ⟨fun _ => .content [10, 123, 123, 32, 49, 32, 124, 32, 125, 125], fun _ => none⟩ 1)
+      (.incl 4 [34, 102, 34]) ⟨[], {}⟩ = .fail (.located ⟨5, true, .syntax, .byCause⟩) :=
+  (include_compile_err_located P O { path := [100, 47, 116] } ⟨fun _ => .content [10, 123, 123, 32, 49, 32, 124, 32, 125, 125], fun _ => none⟩
+    0 4 [34, 102, 34] ⟨[], {}⟩ (.lit (.str [102])) [102] [10, 123, 123, 32, 49, 32, 124, 32, 125, 125] ⟨5, true, .syntax, .byCause⟩
+    rfl rfl rfl rfl).2 (Or.inl (by decide))
+/-- a read error that is not not-exist: the error is located at the tag as well -/
+example (P : Prims) (O : OutPrims) :
+    renderNode (mkCtx P O { path := [100, 47, 116] } ⟨fun _ => .otherError, fun _ => none⟩ 1) (.incl 4 [34, 102, 34]) ⟨[], {}⟩ =
+      .fail (.located ⟨4, true, .io, .byCause⟩) :=
+  include_read_err_located P O { path := [100, 47, 116] } ⟨fun _ => .otherError, fun _ => none⟩ 0 4 [34, 102, 34] ⟨[], {}⟩
+    (.lit (.str [102])) [102] rfl rfl rfl
